@@ -383,5 +383,5 @@ func verifC09Rank(rx, ry, rz int) {}
 //@     invariant j == keepCount(deref(m), idx()) && 0 <= j <= idx()
 //@     invariant forall i int :: 0 <= i < idx() && testOf(deref(m), i) ==> res.Values[keepCount(deref(m), i)] == old(res.Values[i])
 //@     invariant forall i int :: idx() <= i < m.n ==> res.Values[i] == old(res.Values[i])
-//@     invariant forall i int :: 0 <= i <= idx() ==> 0 <= keepCount(deref(m), i) <= i
+//@     invariant forall i int :: 0 <= i < idx() && testOf(deref(m), i) ==> 0 <= keepCount(deref(m), i) < j
 //@     decreases len(res.Values) - idx()
